@@ -161,20 +161,21 @@ fn registry() -> ExternalActionAdapterRegistryV1 {
 const BUDGET: u64 = 24;
 const CEILING: u64 = warp_core::external_action::MAX_EXTERNAL_ACTION_SETTLEMENT_BYTES_V1;
 /// Settlement budget of request `i`: most are small; three sit at the documented boundaries
-/// (one byte, one below the v1 ceiling, the ceiling itself).
+/// (one byte, two bytes, the v1 ceiling itself; only one request carries the megabyte budget so
+/// that the cost of a case stays bounded).
 fn budget_of(i: u8) -> u64 {
     match i % 6 {
         5 => CEILING,
-        4 => CEILING - 1,
+        4 => 2,
         3 => 1,
         _ => BUDGET,
     }
 }
-/// Result length drawn as `len`: small values are literal (capped by the budget), the top six
+/// Result length drawn as `len`: small values are literal (capped by the budget), the top three
 /// values count down from the budget (255 = exactly the budget).
 fn result_len(i: u8, len: u8) -> usize {
     let b = budget_of(i);
-    if len >= 250 {
+    if len >= 253 {
         b.saturating_sub((255 - len) as u64) as usize
     } else {
         (len as u64).min(b) as usize
@@ -184,7 +185,7 @@ fn result_bytes(n: usize, kind: u8) -> Vec<u8> {
     (0..n).map(|b| (b as u8).wrapping_mul(31).wrapping_add(kind)).collect()
 }
 fn len_strategy() -> impl Strategy<Value = u8> {
-    prop_oneof![5 => 0u8..=BUDGET as u8, 2 => 250u8..=255]
+    prop_oneof![5 => 0u8..=BUDGET as u8, 1 => 253u8..=255]
 }
 fn request(i: u8) -> ExternalActionRequestV1 {
     ExternalActionRequestV1::new(
